@@ -167,7 +167,8 @@ pub fn run(p: &VqParams, sc: &str) -> VqOutcome {
 
     let notify_mode = p.mode == "notify";
     // fast-forward bases for the notify mode: the interesting places of the 16-bit index space
-    let bases: [u16; 6] = [65530, 32764, 65533, 16382, 65535, 49150];
+    // (boundary, i.e. the index value just after which interesting things happen)
+    let bases: [u16; 6] = [0, 32768, 0, 16384, 32768, 49152];
     let mut next_base = 0usize;
     let mut i = 0usize;
     while i < p.ops {
@@ -203,7 +204,12 @@ pub fn run(p: &VqParams, sc: &str) -> VqOutcome {
                 });
             }
             if held.is_empty() {
-                let target = bases[next_base];
+                // batch size, where inside the batch the boundary is crossed, which of the new
+                // entries the device asked to be told about
+                let nb = rng.gen_range(1..=std::cmp::min(p.n, 3)) as u16;
+                let d = rng.gen_range(0..=nb);
+                let erel = rng.gen_range(0..nb) as u16;
+                let target = bases[next_base].wrapping_sub(d);
                 next_base += 1;
                 with_world(|w| w.muted = true);
                 let mut b = [0u8; 4];
@@ -222,7 +228,35 @@ pub fn run(p: &VqParams, sc: &str) -> VqOutcome {
                     let af = w.dev_avail_flags(q);
                     let (uf, ae) = w.dev_used_fields(q);
                     w.qev(q, json!({"e":"Skip","idx":idx,"used_event":ue,"avail_flags":af,"used_flags":uf,"avail_event":ae,"last_checked":idx}));
+                    // the device asks for a notification at one of the next b entries
+                    w.dev_set_avail_event(q, idx.wrapping_add(erel));
                 });
+                // a batch of b single-buffer submissions across the boundary, then the check
+                let mut toks = vec![];
+                for _ in 0..nb {
+                    let mut buf = vec![0u8; 8].into_boxed_slice();
+                    let va = buf.as_ptr() as u64;
+                    with_world(|w| {
+                        w.cur_q = Some(q);
+                        w.cur_bufs = vec![(va as usize, 8)];
+                        w.qev(q, json!({"e":"AddCall","bufs":[{"va":hex(va),"len":8,"dir":"FromDevice"}],"outdg":out_digest(std::slice::from_ref(&buf))}));
+                    });
+                    let r = unsafe { queue.add(&[], &mut [&mut buf[..]]) };
+                    with_world(|w| {
+                        w.cur_q = None;
+                        w.cur_bufs.clear();
+                        match &r {
+                            Ok(tok) => w.qev(q, json!({"e":"AddRet","ok":true,"tok":tok})),
+                            Err(e) => w.qev(q, json!({"e":"AddRet","ok":false,"err":err_name(*e)})),
+                        }
+                    });
+                    if let Ok(tok) = r {
+                        toks.push(tok);
+                        held.insert(tok, Sub { ins: vec![], outs: vec![buf] });
+                    }
+                }
+                let r = queue.should_notify();
+                with_world(|w| w.qev(q, json!({"e":"Q","op":"should_notify","r":r})));
             }
         }
         i += 1;
